@@ -508,6 +508,13 @@ func (c *Cluster) Merge(regionID1, regionID2 uint64) {
 	c.Lock()
 	defer c.Unlock()
 
+	// the merged region's version is above both sources' versions (as in TiKV)
+	if v2 := c.regions[regionID2].Meta.GetRegionEpoch().GetVersion(); v2 > c.regions[regionID1].Meta.GetRegionEpoch().GetVersion() {
+		c.regions[regionID1].Meta.RegionEpoch = &metapb.RegionEpoch{
+			ConfVer: c.regions[regionID1].Meta.GetRegionEpoch().GetConfVer(),
+			Version: v2,
+		}
+	}
 	c.regions[regionID1].merge(c.regions[regionID2].Meta.GetEndKey())
 	delete(c.regions, regionID2)
 }
@@ -730,6 +737,9 @@ func (r *Region) split(newRegionID uint64, key MvccKey, peerIDs []uint64, leader
 	region := newRegion(newRegionID, storeIDs, peerIDs, leaderPeerID)
 	region.updateKeyRange(key, r.Meta.EndKey)
 	r.updateKeyRange(r.Meta.StartKey, key)
+	// both halves of a split carry the parent's new version (as in TiKV): the region cache orders
+	// intersecting regions by version, so a new region must not look older than its cached parent.
+	region.Meta.RegionEpoch.Version = r.Meta.RegionEpoch.Version
 	return region
 }
 
